@@ -396,16 +396,30 @@ pub fn run(args: &Args) {
         o.tags.push("dump:agree".into());
 
         // ---- PARSE tie on the saved document and on a surface rewriting of it
-        let rebuild = |xml2: &[u8]| -> Vec<u8> {
+        // an authenticated file carrying xml2, and the bytes the crate's XML reader is handed for it: keepass'
+        // TwofishCipher::decrypt validates the PKCS#7 padding but does not remove it (oracle::outer_dec_as_keepass),
+        // so without compression the padding bytes follow the document.  They are beyond </KeePassFile> in a
+        // complete document (never looked at), but they are part of a truncated one.
+        let rebuild = |xml2: &[u8]| -> (Vec<u8>, Vec<u8>) {
             let mut parts = Parts::of(&base.bytes, &s, &els);
             let ih = parts.payload.len() - s.xml.len();
             parts.payload.truncate(ih);
             parts.payload.extend_from_slice(xml2);
-            parts.build()
+            let mut seen = xml2.to_vec();
+            if parts.cipher == 1 && parts.compression == 0 {
+                let pad = 16 - parts.payload.len() % 16;
+                seen.extend(std::iter::repeat(pad as u8).take(pad));
+            }
+            (parts.build(), seen)
         };
+        // the assumption above is checked against the crate's own decryption (get_xml does no XML parsing)
+        let seen_ok = |file: &[u8], seen: &[u8]| -> bool { match Database::get_xml(&mut &file[..], base.creds.key()) { Ok(x) => x == seen, Err(_) => true } };
         let (varied, used) = crate::xmlsurf::vary(&s.xml, rng);
         for (label, doc, is_saved) in [("saved", s.xml.clone(), true), ("varied", varied, false)] {
-            let file = if is_saved { base.bytes.clone() } else { rebuild(&doc) };
+            let (file, seen) = if is_saved { (base.bytes.clone(), rebuild(&doc).1) } else { rebuild(&doc) };
+            if !seen_ok(&file, &seen) { o.violation = Some("harness: the document handed to the crate's XML reader is not the one assumed".into()); o.violation_class = Some("harness-assumption".into()); return o; }
+            if seen.len() != doc.len() { o.tags.push("twofish-padding-follows-document".into()); }
+            let doc = seen;
             let (impl_s, db2) = match impl_open(&file, base.creds.key()) { Ok(x) => x, Err(p) => { o.violation = Some(format!("open panicked on the {} document: {}", label, p)); return o; } };
             let m = model.eval_with(&format!("(xml-parse {} {} sorted)", events_term(&doc), ks_atom), &oracle::serve);
             if model_class(&m) != impl_s {
@@ -423,7 +437,8 @@ pub fn run(args: &Args) {
         for _ in 0..3 {
             let (kind, doc) = damage(&s.xml, rng);
             if kind == "none" { continue; }
-            let file = rebuild(&doc);
+            let (file, doc) = rebuild(&doc);
+            if !seen_ok(&file, &doc) { o.violation = Some("harness: the document handed to the crate's XML reader is not the one assumed".into()); o.violation_class = Some("harness-assumption".into()); return o; }
             let (impl_s, _) = match impl_open(&file, base.creds.key()) { Ok(x) => x, Err(p) => { o.violation = Some(format!("open panicked on a damaged document ({}): {}", kind, p)); o.violation_class = Some("xml-panic".into()); return o; } };
             let m = model.eval_with(&format!("(xml-parse {} {} sorted)", events_term(&doc), ks_atom), &oracle::serve);
             let cls = if impl_s.starts_with("ok ") { "ok".to_string() } else { impl_s.clone() };
